@@ -91,6 +91,13 @@ def extra_pool():
                                                    q={'p': fdl.Partial(pool.Cls)}, r=(fdl.Partial(pool.fc),))
   P['interned-tuples'] = lambda: fdl.Config(pool.fc, (1, 2), q=[(1, 2), ((3,), 'a')], r=((), (None,)))
   P['unset-tagged-in-container'] = lambda: fdl.Config(pool.fc, 1, q=[pool.TagA.new(), pool.TagB.new(5)])
+  def tagged_shared_payload():
+    # tagged values that stay nodes (inside containers) whose payload is shared with other places
+    sub = fdl.Config(pool.Cls, 'shared-sub')
+    lst = [1, 2]
+    return fdl.Config(pool.fc, [pool.TagA.new(sub), pool.TagB.new(lst)], q=sub,
+                      r={'again': pool.TagA1.new(sub), 'l': lst, 't': (pool.TagB.new(lst),)})
+  P['tagged-values-with-shared-payload'] = tagged_shared_payload
   return P
 
 
